@@ -333,6 +333,7 @@ func main() {
 	sum.Counters["simulated_lock_acquisitions"] = verifrt.LockAcquires
 	sum.Counters["atomic_statements_executed"] = int(verifrt.AtomicHits)
 	sum.Counters["atomic_operand_windows_executed"] = int(verifrt.SyncArgs)
+	sum.Counters["library_goroutines_run_unsimulated"] = int(verifrt.ForeignStarted)
 	sum.KeyCount = len(keys)
 	if len(keys) <= 400000 {
 		for k := range keys {
